@@ -25,9 +25,10 @@ def record(chk, name, kind, seed, steps=150, shards=2, metric="iou", max_idle=2,
         cmd += ["--rotated", "1"]
     if constraints:
         cmd += ["--constraints", constraints]
-    p = vlib.sh(cmd, timeout=600)
-    if p.returncode != 0:
-        vlib.tool_error("vh record r2 failed: " + (p.stdout or "")[-1500:])
+    if not vlib.run_recorder(chk, cmd, "r2:record", timeout=600):
+        # the process died: leave an empty trace with a PANIC event so that callers can go on
+        out.write_text(json.dumps({"ev": "config", "max_idle": max_idle, "thr": 0, "margin": 0, "cons": [], "eps": 0}) + "\n"
+                       + json.dumps({"ev": "PANIC", "call": "process", "index": 0}) + "\n")
     return out
 
 
